@@ -34,6 +34,14 @@ type Step struct {
 	Op   *Step  `json:"op,omitempty"`   // race: the racing call (enq | deq | close)
 }
 
+// nowAfter: the virtual clock after this step, given the clock before it
+func (s Step) nowAfter(now int64) int64 {
+	if (s.O == "adv" || s.O == "race") && s.T > now {
+		return s.T
+	}
+	return now
+}
+
 type Exec struct {
 	ID int64 `json:"id"`
 	T  int64 `json:"t"`
